@@ -49,7 +49,7 @@ PROPS = {
         ],
     ),
     'C04': dict(
-        verus=[],
+        verus=['framing'],
         kani=[
             H(HDR, 'c04_header_decode_matches_spec', functions=['statime/src/datastructures/messages/header.rs: Header::deserialize_header']),
             H(HDR, 'c04_header_decode_short_is_error'),
